@@ -683,6 +683,17 @@ func c04AskerDeath(p *Program, r *Report) {
 	if badPos == token.NoPos {
 		badPos = f.RemoveBy.Pos()
 	}
+	// the per-asker bucket of that table is dropped as a whole only when it is empty: dropping it while another ask of the same
+	// asker is registered hides that ask from the death sweep
+	nd := 0
+	for _, fn := range p.methodsOf(lc.Sys) {
+		if fn.Parent() == nil && len(fn.Blocks) > 0 {
+			nd += p.wholeEntryDeletes(r, fn, table, "an ask still registered in the bucket would be hidden from the sweep that completes it when its asker dies")
+		}
+	}
+	if nd == 0 {
+		r.Unresolved("no whole-bucket delete of the agent table")
+	}
 	r.Check(exact && uses > 0, "only the dying actor's asks are completed", badPos, fmt.Sprintf("all %d uses of the agent table in the bulk-completion routine are lookups with the routine's own path parameter: asks of other (living) actors are never swept", uses))
 }
 
